@@ -127,7 +127,11 @@ func (r *runner) check(path string, c *Case, idx int, want string, p *presented,
 	if got == "panic" {
 		site = "panic"
 	}
-	fp := fmt.Sprintf("%s:%s:%s:%s:%s:hash=%s:allow=%v:want=%s:got=%s", site, path, c.C.Kind, c.C.Key, c.mutClass(), hashClass(c.C.Hash), c.C.Allow, want, got)
+	fp := fmt.Sprintf("%s:%s:%s:%s:%s:want=%s:got=%s", site, path, c.C.Kind, c.C.Key, c.mutClass(), want, got)
+	if c.C.Mut.M == "value" && c.C.Mut.T == "inner-trailing" && want == "error" && got == "ok" {
+		// one defect whatever the entry point: the DER (r, s) parser does not look at what follows s inside the SEQUENCE
+		fp = "verify:der-inner-trailing-accepted:" + family(c.C.Key)
+	}
 	rp := map[string]any{"case": c, "idx": idx, "path": path, "detail": detail}
 	if p != nil {
 		if m, ok := p.f.msg(); ok {
@@ -209,6 +213,9 @@ func (r *runner) mutate(w *world, c *Case, base *fields, signer *keyPair, val []
 		p.val, err = mutateValue(c.C.Mut.T, val, signer, w.rng)
 	default:
 		err = fmt.Errorf("unknown mutation %q", c.C.Mut.M)
+	}
+	if w.rng.Intn(2) == 0 {
+		p.asSigned = base
 	}
 	if base.kind == "LogList" {
 		p.sig = schemeCode(family(p.key.typ)) // implied by the key, nothing is declared
@@ -579,7 +586,7 @@ func (r *runner) flipOne(w *world, rng *mrand.Rand, kind, kt string, i int) {
 		r.infra("flip signing: %v", err)
 		return
 	}
-	p := &presented{f: base.clone(), key: signer, hash: h, sig: schemeCode(family(kt)), val: append([]byte{}, val...)}
+	p := &presented{f: base.clone(), key: signer, hash: h, sig: schemeCode(family(kt)), val: append([]byte{}, val...), asSigned: base}
 	verify := func(p *presented) (string, string) {
 		switch kind {
 		case "Blob":
